@@ -1,18 +1,17 @@
 SPECIFICATION Spec
 CONSTANTS
-  Theme = "foo"
-  ML = 2
-  MW = 2
-  EML = 2
-  EMW = 2
+  Themes = {"wide"}
+  ML = 1
+  MW = 1
+  EML = 1
+  EMW = 1
+  LaML = 0
   Variant = "asis"
-  Gran = "word"
+  Gran = "case"
   Cases <- MC_Cases
-  LaCases <- MC_None
+  LaCases <- MC_LaCases
 CHECK_DEADLOCK FALSE
 ALIAS Alias
 INVARIANT TypeOK
-INVARIANT StepsAgree
 INVARIANT Inv_Property
 INVARIANT Inv_EqualsResolve
-INVARIANT Inv_Progress
